@@ -20,6 +20,7 @@ MSG_EVENT = {
     'notif_hdr': 'EvNotifOther', 'notif_upd': 'EvNotifOther', 'notif_hold': 'EvNotifOther', 'notif_fsm': 'EvNotifOther',
     'notif_cease_data': 'EvNotifOther', 'notif_unassigned': 'EvNotifOther', 'notif_open_other': 'EvNotifOther',
     'update_eor': 'EvUpdateMsg', 'update_withdraw': 'EvUpdateMsg',
+    'update_flow4': 'EvUpdateMsg', 'update_flow4_wd': 'EvUpdateMsg', 'update_vpnv4': 'EvUpdateMsg', 'update_v6': 'EvUpdateMsg',
     # every framing error of RFC 4271 6.1: message length below the type's minimum or above 4096 (reported as soon
     # as the header is there), unknown type, KEEPALIVE with a body
     'open_short': '(EvHeaderErr 2)', 'bad_len_small': '(EvHeaderErr 2)', 'bad_len_big': '(EvHeaderErr 2)',
@@ -27,7 +28,7 @@ MSG_EVENT = {
 }
 # message variants delivered in every session state in addition to the exploration alphabet
 DIRECTED = ['notif_hdr', 'notif_upd', 'notif_hold', 'notif_fsm', 'notif_cease_data', 'notif_unassigned', 'notif_open_other',
-            'update_eor', 'update_withdraw',
+            'update_eor', 'update_withdraw', 'update_flow4', 'update_flow4_wd', 'update_vpnv4', 'update_v6',
             'open_short', 'bad_len_small', 'bad_len_big', 'keepalive_body', 'unknown_type0']
 TIMER_EVENT = {'TConnectRetry': 'EvConnectRetryExpires', 'THold': 'EvHoldExpires',
                'TKeepAlive': 'EvKeepaliveExpires', 'TIdleHold': 'EvIdleHoldExpires'}
